@@ -10,6 +10,7 @@ sys.path.insert(0, os.path.dirname(os.path.abspath(__file__)))
 import c01
 import c02
 import c07
+import c03
 
 FT = [("f32", 4, 8, 23), ("f64", 8, 11, 52)]
 MATH = ["exp", "exp2", "exp10", "expm1", "log", "log2", "log10", "log1p", "sin", "cos", "tan", "asin", "acos", "atan", "sinh", "cosh", "tanh",
@@ -147,18 +148,26 @@ def body(ctx):
     if ctx.replay:
         xl = [l for l in lanes.replay_plan(ctx.replay) if l.split()[0] != "m1"]
         ip = [l for l in xl if l.split()[2] not in ("f32", "f64")]
-        fp = [l for l in xl if l.split()[2] in ("f32", "f64")]
+        fp = [l for l in xl if l.split()[2] in ("f32", "f64") and l.split()[0] not in ("cmp", "sel")]
+        ip = [l for l in ip if l.split()[0] not in ("cmp", "sel")]
+        cp = [l for l in xl if l.split()[0] in ("cmp", "sel")]
     else:
         # (operations with a recorded deviation of C02/C07 - signed rotates, ldexp, frexp - are wrong in a lane-independent way: not C13's subject)
         skip = lambda l: (l.split()[1] in ("ldexp", "frexp")) or (l.split()[1].startswith("rot") and l.split()[2][0] == "i")
         ip = [l for l in c01.make_plan(ctx)[:: ctx.q(5, 2)] + c07.make_plan(ctx)[:: ctx.q(9, 3)] if not skip(l)]
         fp = [l for l in c02.make_plan(ctx)[:: ctx.q(5, 2)] if not skip(l)]
+        # lane-wise comparisons and select (C03): a predicate lane must not depend on its neighbours either (an emulated 16-bit
+        # compare built from 32-bit compares, a 64-bit compare built from 32-bit halves, ...)
+        cp = [l for l in c03.make_plan(ctx) if l.split()[0] in ("cmp", "sel")][:: ctx.q(4, 2)]
     if ip:
         ev, ip = lanes.record(ctx, "int", ip, "c13int")
         lanes.validate(ctx, "T_Int.tla", ev, "c13int", plan_lines=ip)
     if fp:
         ev, fp = lanes.record(ctx, "float", fp, "c13flt")
         lanes.validate(ctx, "T_Float.tla", ev, "c13flt", plan_lines=fp)
+    if cp:
+        ev, cp = lanes.record(ctx, "bool", cp, "c13cmp")
+        lanes.validate(ctx, "T_Bool.tla", c03.split_src(ev), "c13cmp", plan_lines=cp)
     return dict(exhaustive=False,
                 rule="for every elementary function (25) and 4 exact float operations, float and double, 22 architectures + scalar: rows mixing operand classes on both sides of every whole-batch "
                      "any()/all() test (tiny/small/mid/medium/big/large/huge/negative-gamma/NaN/inf/zero/subnormal/top binades/smallest normals/negative; EVERY ordered pair of classes as (companions, one outlier lane), alternating, fully mixed), and for EVERY lane position the same value "
